@@ -622,7 +622,7 @@ pub fn gen_layout_script(id: usize, rng: &mut Sm, numpy_env: bool, st: &mut Layo
     calls.push(call("get_orders", json!([]), json!({}), json!({"v": orders_json(env.get_orderbook())})));
     calls.push(call("get_trades", json!([]), json!({}), json!({"v": trades_json(env.get_orderbook())})));
     let _ = l2_of::<10>;
-    json!({"id": id, "kind": if numpy_env { "stepenvnumpy" } else { "stepenv" }, "ctor": {"args": [seed, t0, tick, step_size], "kwargs": {}}, "calls": calls, "dataframes": true})
+    json!({"id": id, "kind": if numpy_env { "stepenvnumpy" } else { "stepenv" }, "ctor": {"args": [seed, t0, tick, step_size], "kwargs": {}}, "calls": calls, "dataframes": true, "self_oracle": true})
 }
 
 fn run_python(ctx: &Ctx, scripts: &Value) -> Result<Value, String> {
@@ -809,6 +809,7 @@ pub fn c19(ctx: &Ctx) -> i32 {
             ("asymmetric_layout_checks", r["asymmetric_layout_checks"].as_u64().unwrap_or(0), 1000),
             ("dict_checks", r["dict_checks"].as_u64().unwrap_or(0), 200),
             ("dataframe_checks", r["dataframe_checks"].as_u64().unwrap_or(0), 200),
+            ("self_oracle_checks", r["self_oracle_checks"].as_u64().unwrap_or(0), 2000),
             ("quiet_steps", st.quiet_steps as u64, 200),
             ("steps_that_traded", st.steps_that_traded as u64, 200),
         ]);
@@ -816,7 +817,7 @@ pub fn c19(ctx: &Ctx) -> i32 {
     let cov = json!({
         "evaluations": r["executed"].as_u64().unwrap_or(0),
         "distinct_nontrivial": d.len(),
-        "rule": "cases = Python calls on StepEnv and StepEnvNumpy executed on the real extension with numpy: after each step of a random asymmetric book (different counts, volumes and levels on the two sides) all four array-returning methods are compared element by element with the documented layout (traded volume, bid price, ask price, bid volume, ask volume, then per level bid volume, bid count, ask volume, ask count; lengths 9 and 45) filled from the Rust core, the traded volume of a step recomputed from the trade log (trades stamped inside the step) rather than read from the environment's counter; a fifth of the steps submit nothing at all; get_market_data must have exactly the 45 documented keys, each bound to the matching recorded series; history getters; both data-frame helpers are run against a stub pandas and every column must be named after (and hold) its field; the documented index tables are parsed from the live docstrings and must equal the checker's; distinct = distinct asymmetric (state, environment class) pairs; non-trivial = bid and ask totals and touch records differ",
+        "rule": "cases = Python calls on StepEnv and StepEnvNumpy executed on the real extension with numpy: after each step of a random asymmetric book (different counts, volumes and levels on the two sides) all four array-returning methods are compared element by element with the documented layout (traded volume, bid price, ask price, bid volume, ask volume, then per level bid volume, bid count, ask volume, ask count; lengths 9 and 45) filled from the Rust core, the traded volume of a step recomputed from the trade log (trades stamped inside the step) rather than read from the environment's counter; a fifth of the steps submit nothing at all; every array, dictionary series and history getter is judged against the documented quantities recomputed from get_orders()/get_trades() of the same Python object (so the verdict does not depend on the object following the Rust twin's shuffle) and, while the states coincide, also against the Rust twin; get_market_data must have exactly the 45 documented keys, each bound to the matching recorded series; history getters; both data-frame helpers are run against a stub pandas and every column must be named after (and hold) its field; the documented index tables are parsed from the live docstrings and must equal the checker's; distinct = distinct asymmetric (state, environment class) pairs; non-trivial = bid and ask totals and touch records differ",
         "samples": [sample],
         "scripts": n_scripts,
         "states": st.states,
@@ -827,6 +828,8 @@ pub fn c19(ctx: &Ctx) -> i32 {
         "asymmetric_layout_checks": r["asymmetric_layout_checks"],
         "dict_checks": r["dict_checks"],
         "dataframe_checks": r["dataframe_checks"],
+        "self_oracle_checks": r["self_oracle_checks"],
+        "scripts_whose_state_left_the_rust_twin": r["twin_divergences"],
         "doc_tables": r["doc"],
         "numpy": r["numpy"],
     });
